@@ -28,12 +28,12 @@ pub struct HState {
     pub panic_at: u64,
     pub log: Vec<String>,
     pub drops: Vec<(u32, u64)>,
-    pub resets_seen: Vec<u64>,
+    pub resets_base: u64,
 }
 
 thread_local! {
     pub static ST: RefCell<HState> = RefCell::new(HState {
-        ids: vec![], fuel: 64, serial: 1, inv: 0, panic_at: 0, log: vec![], drops: vec![], resets_seen: vec![],
+        ids: vec![], fuel: 64, serial: 1, inv: 0, panic_at: 0, log: vec![], drops: vec![], resets_base: 0,
     });
 }
 
@@ -830,9 +830,11 @@ impl Handler for DynHandler {
         };
         let resets = evenio::verif::bump_resets();
         let hid = info.id();
+        let base = ST.with(|s| s.borrow().resets_base);
         let line = format!(
-            "L {} {}{} {}:{} id={} tgt={} recv=[{}] views=[{}]",
+            "L {} rs={} {}{} {}:{} id={} tgt={} recv=[{}] views=[{}]",
             skey(hid.index().0, hid.generation()),
+            resets - base,
             if inv.targeted { "t" } else { "g" },
             inv.tag,
             inv.sv.0,
@@ -845,7 +847,6 @@ impl Handler for DynHandler {
         let (my_inv, panic_at) = ST.with(|s| {
             let mut s = s.borrow_mut();
             s.log.push(line);
-            s.resets_seen.push(resets);
             s.inv += 1;
             (s.inv, s.panic_at)
         });
